@@ -149,6 +149,16 @@ impl Factory for LogFactory {
 
 // ---------------------------------------------------------------------------------------------
 
+pub struct HeldIter {
+    pub it: Box<dyn DoubleEndedIterator<Item = lsm_tree::IterGuardImpl> + Send>,
+    pub snap: u64,
+    /// what the rest of the scan must yield (model at open time)
+    pub expected: std::collections::VecDeque<(Key, Vec<u8>)>,
+    /// the super version the scan reads from: its files must stay on disk while the scan lives
+    pub pinned: verif::SuperVersion,
+    pub tags: Vec<&'static str>,
+}
+
 #[derive(Clone, Copy, Debug)]
 pub struct Snap {
     pub seq: u64,
@@ -219,6 +229,8 @@ pub struct Instance {
     pub phys_prev: BTreeMap<Key, Vec<(u64, u8, u64)>>,
     /// fault engine: marker file bracketing every call into the crate (exact injection windows)
     pub call_markers: Option<std::fs::File>,
+    /// scans held open across later ops (each pins the super version of its snapshot)
+    pub iters: Vec<Option<HeldIter>>,
 }
 
 fn to_bound(b: &Bound<Key>) -> Bound<Key> {
@@ -294,6 +306,7 @@ impl Instance {
             blob_left_by: BTreeMap::new(),
             phys_prev: BTreeMap::new(),
             call_markers: None,
+            iters: vec![],
         };
         me.open_tree(&["C04"])?;
         Ok(me)
@@ -376,7 +389,59 @@ impl Instance {
     }
 
     fn live_snaps(&self) -> Vec<u64> {
-        self.snaps.iter().flatten().map(|s| s.seq).collect()
+        self.snaps.iter().flatten().map(|s| s.seq).chain(self.iters.iter().flatten().map(|i| i.snap)).collect()
+    }
+
+    fn step_iter(&mut self, slot: usize, n: usize, back: bool, drain: bool) -> Result<(), Violation> {
+        let Some(Some(h)) = self.iters.get_mut(slot) else { return Ok(()) };
+        let mut taken = 0usize;
+        loop {
+            if !drain && taken >= n {
+                break;
+            }
+            let item = if back { h.it.next_back() } else { h.it.next() };
+            let exp = if item.is_some() || drain || taken < n {
+                if back { h.expected.pop_back() } else { h.expected.pop_front() }
+            } else {
+                None
+            };
+            let got = match item {
+                None => None,
+                Some(g) => match g.into_inner() {
+                    Ok((k, v)) => Some((k.to_vec(), v.to_vec())),
+                    Err(e) => {
+                        let tags = h.tags.clone();
+                        let snap = h.snap;
+                        self.iters[slot] = None;
+                        return Err(Violation::new(&tags, "held-scan:error", format!("a scan held open at snapshot {snap} returned Err after later maintenance: {e:?}")));
+                    }
+                },
+            };
+            taken += 1;
+            if got != exp {
+                let tags = h.tags.clone();
+                let snap = h.snap;
+                self.iters[slot] = None;
+                return Err(Violation::new(
+                    &tags,
+                    "held-scan:mismatch",
+                    format!(
+                        "a scan held open at snapshot {snap} yields {:?} from the {}, expected {:?} (the view it was opened on)",
+                        got.map(|(k, v)| (esc(&k), esc(&v[..v.len().min(16)]))),
+                        if back { "back" } else { "front" },
+                        exp.map(|(k, v)| (esc(&k), esc(&v[..v.len().min(16)])))
+                    ),
+                ));
+            }
+            if got.is_none() {
+                break;
+            }
+        }
+        bump(&mut self.counters, "held_scan_items_compared", taken as u64);
+        if drain {
+            self.iters[slot] = None;
+        }
+        Ok(())
     }
 
     /// Resolves a watermark selector into a legal GC watermark (strictly below every live snapshot).
@@ -696,6 +761,31 @@ impl Instance {
                 self.model.prune(min);
                 Ok(())
             }
+            Op::IterOpen { slot } => {
+                let s = self.visible.get();
+                if s == 0 {
+                    return Ok(());
+                }
+                while self.iters.len() <= *slot {
+                    self.iters.push(None);
+                }
+                if self.iters[*slot].is_some() {
+                    return Ok(());
+                }
+                let (exp, unknown) = self.model.world_for(s).scan(s, &Bound::Unbounded, &Bound::Unbounded);
+                if !unknown.is_empty() {
+                    return Ok(());
+                }
+                let pinned = self.tree().get_version_history_lock().get_version_for_snapshot(s);
+                let it = self.tree().iter(s, None);
+                let mut tags = self.blame(&["C02", "C03", "C20"]);
+                tags.retain(|t| *t != "C01");
+                self.iters[*slot] = Some(HeldIter { it, snap: s, expected: exp.into(), pinned, tags });
+                bump(&mut self.counters, "held_scans_opened", 1);
+                Ok(())
+            }
+            Op::IterStep { slot, n, back } => self.step_iter(*slot, usize::from(*n), *back, false),
+            Op::IterClose { slot } => self.step_iter(*slot, 0, false, true),
             Op::Reopen => self.reopen(),
             Op::Ingest { items, abandon } => self.ingest(op, items, *abandon),
             Op::DropRange { lo, hi } => self.drop_range(op, lo, hi),
@@ -964,6 +1054,10 @@ impl Instance {
 
     fn reopen(&mut self) -> Result<(), Violation> {
         // realistic close: nothing of ours keeps tables alive
+        for slot in 0..self.iters.len() {
+            self.step_iter(slot, 0, false, true)?;
+        }
+        self.iters.clear();
         let _ = hooks::drain_installs();
         // (a previous, failed reopen may already have closed the tree: keep what was recorded then)
         if self.tree.is_some() {
@@ -1380,7 +1474,12 @@ impl Instance {
     }
 
     fn dir_audit(&mut self) -> Result<(), Violation> {
-        let hist = self.tree().get_version_history_lock().verif_history();
+        let mut hist = self.tree().get_version_history_lock().verif_history();
+        // a held scan pins the super version it reads from: its files are legitimately on disk,
+        // and they must not be deleted under it (the current version stays last in the list)
+        for h in self.iters.iter().flatten() {
+            hist.insert(0, h.pinned.clone());
+        }
         let ctx = if self.cleared_since_open { "after-clear" } else { "normal" };
         let findings = audit::audit_dir(&self.dir, &hist, &self.orphans, false, ctx);
         bump(&mut self.counters, "dir_audits", 1);
